@@ -58,7 +58,25 @@ def _num(spec):
         return np.int32(v)
     if t == "b":
         return bool(v)
+    # anything that converts with __float__: a Decimal, a 0-d array, a NumPy bool, an object that only has __float__
+    if t == "dec":
+        import decimal
+        return decimal.Decimal(float.fromhex(v))
+    if t == "zd":
+        return np.array(float.fromhex(v))
+    if t == "nb":
+        return np.bool_(v)
+    if t == "duck":
+        return _OnlyFloat(float.fromhex(v))
     raise AssertionError(t)
+
+
+class _OnlyFloat:
+    def __init__(self, x):
+        self.x = x
+
+    def __float__(self):
+        return self.x
 
 
 def _fval(x):
@@ -79,7 +97,7 @@ def _given(spec):
     t, v = spec
     if t in ("i", "i32"):
         return [int(v), 0]
-    if t == "b":
+    if t in ("b", "nb"):
         return [int(bool(v)), 0]
     if t == "f32":
         import numpy as np
@@ -203,6 +221,19 @@ def run_impl(c):
         except Exception:
             flags.append(False)
         flags.append(w._data.tobytes() == before)
+        # scaled_data is computed from the samples as they are NOW: read again after a write through the raw view and
+        # after the caller scribbled over the array it got the first time
+        try:
+            got1 = w.scaled_data
+            if w.sample_count:
+                if got1.flags.writeable and not np.shares_memory(got1, w._data):
+                    got1[...] = 0
+                raw = w.raw_data
+                raw[0] = raw[-1] if w.sample_count > 1 and raw[0] != raw[-1] else (raw[0] + 1 if raw.dtype.names is None else raw[0])
+            a2, b2 = w.scaled_data, w.get_scaled_data()
+            flags.append(a2.dtype == b2.dtype and a2.tobytes() == b2.tobytes())
+        except Exception:
+            flags.append(False)
     return {"res": first, "flags": flags}
 
 
@@ -304,7 +335,9 @@ def _fin(rng):
 
 
 def _scale_num(rng):
-    t = rng.choice(["f", "f", "f", "i", "f32", "f64", "f64", "i32", "b"])
+    t = rng.choice(["f", "f", "f", "i", "f32", "f64", "f64", "i32", "b", "dec", "zd", "nb", "duck"])
+    if t == "nb":
+        return [t, rng.random() < 0.5]
     if t in ("i", "i32"):
         return [t, rng.choice([0, 1, -1, 2, -3, 10, 1000, 2**31 - 1] + ([2**70, 2**63 + 1] if t == "i" else []))]
     if t == "b":
